@@ -346,6 +346,7 @@ package keeper
 //@   ensures [C09.renew.keep] forall d string :: (has(Metadata, d) <==> old(has(Metadata, d))) && (has(Metadata, d) ==> Metadata[d].Owner == old(Metadata[d].Owner)
 //@       && Metadata[d].Commits == old(Metadata[d].Commits) && Metadata[d].Commit == old(Metadata[d].Commit)
 //@       && Metadata[d].ReadonlyDids == old(Metadata[d].ReadonlyDids) && Metadata[d].ReadwriteDids == old(Metadata[d].ReadwriteDids))
+//@   ensures [C16.renew.notinflight] forall d string :: has(Metadata, d) && old(has(Metadata, d)) && Metadata[d] != old(Metadata[d]) ==> old(Metadata[d].Status) == MetaComplete
 //@   ensures [C10.renew.actor] err == nil ==> actsFor(msg.Creator, msg.Provider, old(has(Node, msg.Provider)), old(Node[msg.Provider]))
 //@   at RenewOrder assert [C04.renew.quote] order.Amount.Denom == BondDenom && order.Operation == 3 && (order.Size_ <= MaxInt64 ==>
 //@       order.Amount.Amount == div(1000000000000 * order.Replica * order.Size_ * order.Duration, 1000000000000000000)
@@ -379,6 +380,7 @@ package keeper
 //@   loop L2 invariant forall i int :: 0 <= i && i <= MaxUint64 && has(Shard, i) ==> Shard[i].Pledge.Amount >= 0 && validAddr(Shard[i].Sp)
 //@       && Shard[i].CreatedAt + Shard[i].Duration + sumDur(Shard[i].RenewInfos, len(Shard[i].RenewInfos)) <= MaxUint64 - 63072000 * (len(msg0.Proposal.Data) - rangeindex - 1) - H
 //@   loop L2 invariant [C09.renew.auth] forall d string :: Metadata[d] != old(Metadata[d]) || !(has(Metadata, d) <==> old(has(Metadata, d))) ==> old(has(Metadata, d)) && old(Metadata[d].Owner) == sigDid
+//@   loop L2 invariant [C16.renew.notinflight] forall d string :: has(Metadata, d) && old(has(Metadata, d)) && Metadata[d] != old(Metadata[d]) ==> old(Metadata[d].Status) == MetaComplete
 //@   loop L2 invariant [C09.renew.keep] forall d string :: (has(Metadata, d) <==> old(has(Metadata, d))) && (has(Metadata, d) ==> Metadata[d].Owner == old(Metadata[d].Owner)
 //@       && Metadata[d].Commits == old(Metadata[d].Commits) && Metadata[d].Commit == old(Metadata[d].Commit)
 //@       && Metadata[d].ReadonlyDids == old(Metadata[d].ReadonlyDids) && Metadata[d].ReadwriteDids == old(Metadata[d].ReadwriteDids))
